@@ -449,6 +449,8 @@ def string_escape(ctx):
             "invalid-escape",
             (ctx_start, ctx, "Two hexadecimal digits are expected after '\\x' in a string")
         ))
+        if num is None:
+            return ""
         return chr(int(num, 16))
     else:
         reports.error(
